@@ -346,14 +346,14 @@ def _expected(overloads, args):
     return w[0] if len(w) == 1 else None
 
 
-def _program(overloads, args):
+def _program(overloads, args, main_pos=None):
     src = []
     for i, sig in enumerate(overloads):
         ps = ", ".join(f"{t} p{j}" for j, t in enumerate(sig))
         src.append(f"function h({ps}) -> int {{ return {100 + i}; }}")
     ps = ", ".join(f"{t} a{j}" for j, t in enumerate(args))
     call = ", ".join(f"a{j}" for j in range(len(args)))
-    src.append(f"export function main({ps}) -> int {{ return h({call}); }}")
+    src.insert(len(src) if main_pos is None else main_pos, f"export function main({ps}) -> int {{ return h({call}); }}")
     return "\n".join(src)
 
 
@@ -373,7 +373,7 @@ def _chosen(result):
     return v.Value if isinstance(v, IR.ConstantValue) else "callee does not return a constant"
 
 
-def _e2e(R, nover, quickpart=None):
+def _e2e(R, nover, quickpart=None, main_pos=None):
     sigs = _sigs(E2E_TYPES, 2)
     arglists = _sigs(E2E_TYPES, 2)
     fn = "nsl.types::Scope.FindFunction"
@@ -385,10 +385,10 @@ def _e2e(R, nover, quickpart=None):
             overloads = [sigs[i] for i in order]
             for args in arglists:
                 want = _expected(overloads, args)
-                src = _program(overloads, args)
+                src = _program(overloads, args, main_pos)
                 r, exc = tc.compile_quiet(src)
                 n += 1
-                oid = f"C10.e2e[{'|'.join(','.join(s) for s in overloads)}<-{','.join(args)}]"
+                oid = f"C10.e2e[{'|'.join(','.join(s) for s in overloads)}<-{','.join(args)}{'' if main_pos is None else ',caller@' + str(main_pos)}]"
                 rp = script("""
                     import io, contextlib
                     from nsl import Compiler, LinearIR
@@ -442,6 +442,20 @@ def _mk2(part):
 
 for _p in range(4):
     _mk2(_p)
+
+
+def _mkfirst(part, pos):
+    @family(f"C10.e2e.caller-at-{pos}.{part}", props=["C10", "C03"], functions=E2E_FUNCS,
+            assumptions=["finite domain enumerated completely (exhaustive-finite): all sets of 2 overloads, both declaration orders, all argument lists, with the CALLER declared before / between the overloads"])
+    def f(R, part=part, pos=pos):
+        _e2e(R, 2, (part, 4), main_pos=pos)
+    f.__doc__ = "End to end: the choice does not depend on where the caller stands relative to the overloads (all functions are registered before any body is typed)."
+    return f
+
+
+for _p in range(4):
+    _mkfirst(_p, 0)
+    _mkfirst(_p, 1)
 
 
 def _mk3(part):
